@@ -22,6 +22,9 @@ package proto
 //@ define pa_par(nodes Nodes, off int) bool = forall k :: {nodes[k]} 0 <= k && k < len(nodes) ==> (nodes[k].ForkchoiceParent == NONE || (off <= nodes[k].ForkchoiceParent && nodes[k].ForkchoiceParent < off + k)) && (nodes[k].TransitionParent == NONE || (off <= nodes[k].TransitionParent && nodes[k].TransitionParent < off + k))
 //@ define pa_best(nodes Nodes, off int) bool = forall k :: {nodes[k]} 0 <= k && k < len(nodes) ==> (nodes[k].BestChild == NONE || (off <= nodes[k].BestChild && nodes[k].BestChild < off + len(nodes))) && (nodes[k].BestDescendant == NONE || (off <= nodes[k].BestDescendant && nodes[k].BestDescendant < off + len(nodes))) && (nodes[k].BestChild == NONE <==> nodes[k].BestDescendant == NONE)
 //@ define pa_bs(blockSlots BlockSlots, indices Indices) bool = !isnil(blockSlots) && (forall r RootT :: {blockSlots[r]} has(blockSlots, r) ==> has(indices, NodeRef(blockSlots[r], r)))
+// pa_slot: the transition parent of an empty-slot node (ParentRoot == Ref.Root) is the node of the same root one
+// slot earlier; the transition parent of a block node is the empty-slot node of its parent root at the block's slot.
+//@ define pa_slot(nodes Nodes, off int) bool = forall k :: {nodes[k]} 0 <= k && k < len(nodes) && nodes[k].TransitionParent != NONE ==> (nodes[k].ParentRoot == nodes[k].Ref.Root ==> nodes[nodes[k].TransitionParent - off].Ref.Root == nodes[k].Ref.Root && nodes[nodes[k].TransitionParent - off].Ref.Slot + 1 == nodes[k].Ref.Slot) && (nodes[k].ParentRoot != nodes[k].Ref.Root ==> nodes[nodes[k].TransitionParent - off].Ref == NodeRef(nodes[k].Ref.Slot, nodes[k].ParentRoot))
 //@ define pa_ok(nodes Nodes, indices Indices, off int) bool = pa_idx(nodes, indices, off) && pa_par(nodes, off) && pa_best(nodes, off) && !isnil(indices) && len(indices) == len(nodes) && off + len(nodes) < 9223372036854775808
 
 // pa_same: same nodes up to the best-child / best-descendant links
@@ -41,7 +44,7 @@ package proto
 
 //@ func NewProtoArray(parent, blockRoot, blockSlot, justifiedEpoch, finalizedEpoch, sink) pr
 //@   property C09 C10 C11
-//@   ensures pr != nil && pa_ok(pr.nodes, pr.indices, pr.indexOffset) && pa_bs(pr.blockSlots, pr.indices) && pr.updatedConnections
+//@   ensures pr != nil && pa_ok(pr.nodes, pr.indices, pr.indexOffset) && pa_bs(pr.blockSlots, pr.indices) && pa_slot(pr.nodes, pr.indexOffset) && pr.updatedConnections
 //@   ensures len(pr.nodes) == 1 && pr.indexOffset == 0 && pr.nodes[0].Ref == NodeRef(blockSlot, blockRoot) && pr.nodes[0].ParentRoot == parent
 //@   ensures has(pr.blockSlots, blockRoot) && pr.blockSlots[blockRoot] == blockSlot
 //@   ensures pr.justifiedEpoch == justifiedEpoch && pr.finalizedEpoch == finalizedEpoch
@@ -132,8 +135,11 @@ package proto
 //@   requires pr != nil && pa_ok(pr.nodes, pr.indices, pr.indexOffset) && pa_bs(pr.blockSlots, pr.indices)
 //@   requires room: pr.indexOffset + len(pr.nodes) + slot < 9223372036854775807
 //@   requires domain: has(pr.blockSlots, parent) ==> slot > pr.blockSlots[parent] || has(pr.indices, NodeRef(slot, parent))
+//@   requires slots: pa_slot(pr.nodes, pr.indexOffset)
 //@   assigns pr.nodes, pr.indices, pr.updatedConnections
 //@   ensures inv: pa_ok(pr.nodes, pr.indices, pr.indexOffset) && pa_bs(pr.blockSlots, pr.indices)
+//@   ensures slots: pa_slot(pr.nodes, pr.indexOffset)
+//@   ensures new_are_slot_nodes: forall k :: {pr.nodes[k]} old(len(pr.nodes)) <= k && k < len(pr.nodes) ==> pr.nodes[k].Ref.Root == parent && pr.nodes[k].ParentRoot == parent
 //@   ensures kept: pa_prefix(old(pr.nodes), pr.nodes)
 //@   ensures added: has(pr.indices, NodeRef(slot, parent))
 //@   ensures grows: forall r NodeRefT :: {pr.indices[r]} old(has(pr.indices, r)) ==> has(pr.indices, r) && pr.indices[r] == old(pr.indices[r])
@@ -142,6 +148,8 @@ package proto
 //@     invariant pa_prefix(old(pr.nodes), pr.nodes)
 //@     invariant forall r NodeRefT :: {pr.indices[r]} old(has(pr.indices, r)) ==> has(pr.indices, r) && pr.indices[r] == old(pr.indices[r])
 //@     invariant pr.indexOffset <= parentIndex && parentIndex < pr.indexOffset + len(pr.nodes)
+//@     invariant pa_slot(pr.nodes, pr.indexOffset) && pr.nodes[parentIndex - pr.indexOffset].Ref == NodeRef(i - 1, parent)
+//@     invariant forall k :: {pr.nodes[k]} old(len(pr.nodes)) <= k && k < len(pr.nodes) ==> pr.nodes[k].Ref.Root == parent && pr.nodes[k].ParentRoot == parent
 //@     invariant parentSlot < i && i <= slot && len(pr.nodes) - old(len(pr.nodes)) <= i - parentSlot - 1
 //@     invariant !has(pr.indices, NodeRef(slot, parent))
 //@     decreases slot - i
@@ -150,8 +158,10 @@ package proto
 //@   property C09 C11
 //@   requires pr != nil && pa_ok(pr.nodes, pr.indices, pr.indexOffset) && pa_bs(pr.blockSlots, pr.indices)
 //@   requires room: pr.indexOffset + len(pr.nodes) + blockSlot < 9223372036854775806
+//@   requires slots: pa_slot(pr.nodes, pr.indexOffset)
 //@   assigns pr.nodes, pr.indices, pr.blockSlots, pr.updatedConnections
 //@   ensures inv: pa_ok(pr.nodes, pr.indices, pr.indexOffset) && pa_bs(pr.blockSlots, pr.indices)
+//@   ensures slots: pa_slot(pr.nodes, pr.indexOffset)
 //@   ensures kept: pa_prefix(old(pr.nodes), pr.nodes)
 //@   ensures known: ok && !old(has(pr.indices, NodeRef(blockSlot, blockRoot))) ==> has(pr.blockSlots, blockRoot)
 //@   ensures added: ok && !old(has(pr.indices, NodeRef(blockSlot, blockRoot))) && !old(has(pr.blockSlots, blockRoot)) ==> has(pr.indices, NodeRef(blockSlot, blockRoot)) && pr.blockSlots[blockRoot] == blockSlot
@@ -205,8 +215,9 @@ package proto
 //@   ensures exact: has(pr.indices, NodeRef(slot, anchor)) ==> err == nil && closest == NodeRef(slot, anchor)
 //@   ensures before: !has(pr.indices, NodeRef(slot, anchor)) && has(pr.blockSlots, anchor) && pr.blockSlots[anchor] > slot ==> err != nil
 //@   ensures found: err == nil ==> has(pr.indices, closest) && closest.Root == anchor && closest.Slot <= slot
+//@   ensures next_missing: err == nil && closest.Slot < slot ==> !has(pr.indices, NodeRef(closest.Slot + 1, anchor))
 //@   loop 1
-//@     invariant has(pr.indices, min) && min.Root == anchor && pivot.Root == anchor && max.Root == anchor && min.Slot < max.Slot && max.Slot <= slot
+//@     invariant has(pr.indices, min) && !has(pr.indices, max) && min.Root == anchor && pivot.Root == anchor && max.Root == anchor && min.Slot < max.Slot && max.Slot <= slot
 //@     decreases max.Slot - min.Slot
 
 //@ func (pr *ProtoArray) CanonAtSlot(anchor, slot, withBlock) (at, err)
